@@ -43,8 +43,8 @@ Proof. vm_compute. reflexivity. Qed.
 
 (* every other tag is kept: an entry that holds a tag which is not a fallback tag (and is not a referrers response) is still
    in the index after the conversion, unchanged - it resolves to the same manifest *)
-Theorem C17_keeps_tags : forall E x t' now blobs i i' blobs',
+Theorem C17_keeps_tags : forall E x t',
   t' <> "" -> reftag t' = false -> holds t' x = true -> ann_get RefSubject x = "" ->
-  convert E now blobs i = Ok (i', blobs') -> In x (top i) -> In x (top i').
+  forall now blobs i i' blobs', convert E now blobs i = Ok (i', blobs') -> In x (top i) -> In x (top i').
 Proof. exact convert_keeps_tags. Qed.
 Print Assumptions C17_keeps_tags.
